@@ -298,8 +298,9 @@ static void __print_time_unit(int64_t delta_nsec, bool needs_sign)
 		HTML_COLOR_RED " h" HTML_COLOR_RESET,
 	};
 	char *unit;
+	/* ns -> us -> ms -> s -> m -> h: sixty minutes make an hour */
 	unsigned limit[] = {
-		1000, 1000, 1000, 60, 24, INT_MAX,
+		1000, 1000, 1000, 60, 60, INT_MAX,
 	};
 	unsigned idx;
 
